@@ -102,6 +102,11 @@ def lifecycle_descs(tier, seed, hib_values=(False, True), objs=("twofunnel", "pl
                                             gsc=gsc, maximize=mx, obj=FLAT_FOR.get(tuple(eng), objs[k % len(objs)]),
                                             sprout={"kind": "scripted", "L": L, "default": 1 + (k % 2), "demelimit": dl})))
                 k += 1
+    # middle-level demes that stop when all their children have stopped, several siblings per level
+    for j, eng in enumerate([("SEA", "DE", "CMAf"), ("DE", "SEA", "SHADE"), ("LHS", "GA", "DE")]):
+        for hib in hib_values:
+            out.append(("bounded", dict(engines=list(eng), gens=1, Mh=6, hib=hib, seed=s + j, choices="GLS", lsc=[None, "allchildren", {"kind": "metaepoch", "m": 1 + j % 2}],
+                                        gsc={"kind": "horizon"}, maximize=bool(j % 2), obj="twofunnel", sprout={"kind": "scripted", "L": 2, "default": 1})))
     return out
 
 
